@@ -34,8 +34,20 @@ func UpdateMessageForChange(changedFile string) (string, string, string) {
 			oldLastChanged = strings.TrimPrefix(oldLastChanged, "/")
 		}
 
+		// a file moved out of the directory: adapter/{call => }/Listener.go
+		var newLastChanged = changed[4]
+		if changed[3] == "" {
+			newLastChanged = strings.TrimPrefix(newLastChanged, "/")
+		}
+
 		oldFileName = changed[1] + changed[2] + oldLastChanged
-		newFileName = changed[1] + changed[3] + changed[4]
+		newFileName = changed[1] + changed[3] + newLastChanged
+
+		changedFile = newFileName
+	} else if moved := basicMvReg.FindStringSubmatch(changedFile); len(moved) == 3 {
+		// examples: imp/imp_test.go => learn_go_test.go
+		oldFileName = moved[1]
+		newFileName = moved[2]
 
 		changedFile = newFileName
 	}
